@@ -119,7 +119,8 @@ def t_fresh_escaping(ck, ctx):
                             p = access_path(x) if isinstance(x, ast.Attribute) else None
                             if p and p.startswith("self.") and p.count(".") == 1:
                                 escaping.add(p)
-            if isinstance(n, ast.Return) and n.value is not None:
+            # (only what the result-returning entry points return: a helper that returns the current line hands nothing to the caller of run())
+            if isinstance(n, ast.Return) and n.value is not None and f.name in ("run", "parse_data"):
                 p = access_path(n.value) if isinstance(n.value, ast.Attribute) else None
                 if p and p.startswith("self.") and p.count(".") == 1:
                     escaping.add(p)
